@@ -42,7 +42,7 @@ func init() {
 		MinEvals:    floor(20000, 600000),
 		MinDistinct: floor(2000, 60000),
 		RequiredCells: func(string) []string {
-			cells := []string{"cid/ToSealed", "cid/ToSealedWriter", "cid/FromSealed", "cid/FromSealedReader", "cid/container", "cid/ToSealedWriter-piecewise", "cid/container-foreign-section-cid", "cid/mixed-container", "sig/s-flip", "sig/der-padded", "sig/zero-prepended", "sig/zero-appended", "sig/leading-zeros-stripped", "sig/leading-zero-signature/rsa2048", "variant/extra-element"}
+			cells := []string{"cid/ToSealed", "cid/ToSealedWriter", "cid/FromSealed", "cid/FromSealedReader", "cid/container", "cid/ToSealedWriter-piecewise", "cid/container-foreign-section-cid", "cid/mixed-container", "sig/s-flip", "sig/der-padded", "sig/zero-prepended", "sig/zero-appended", "sig/leading-zeros-stripped", "sig/leading-zero-signature/rsa2048", "variant/extra-element", "variant/envelope-rearranged"}
 			for _, k := range []string{"widen-1", "widen-2", "widen-4", "widen-8", "indefinite", "indefinite-split", "map-reverse", "map-rotate", "float-narrow", "null-undefined", "all-knobs"} {
 				cells = append(cells, "variant/"+k)
 			}
@@ -446,6 +446,18 @@ func runC08(w *mon.W) {
 			c2 := root.Clone()
 			c2.Items = append(c2.Items, &ref.Item{Major: 2, Data: []byte("unsigned")}, &ref.Item{Major: 5})
 			variants = append(variants, ref.Variant{Kind: "extra-element", Bytes: c2.Encode()})
+			// the two envelope elements in the other order; an unsigned element in FRONT of them; the
+			// pair wrapped in a further list - the same signature over the same signed part every time
+			if len(root.Items) == 2 {
+				c3 := root.Clone()
+				c3.Items[0], c3.Items[1] = c3.Items[1], c3.Items[0]
+				variants = append(variants, ref.Variant{Kind: "envelope-rearranged", Bytes: c3.Encode()})
+				c4 := root.Clone()
+				c4.Items = append([]*ref.Item{{Major: 0, Arg: 1}}, c4.Items...)
+				variants = append(variants, ref.Variant{Kind: "envelope-rearranged", Bytes: c4.Encode()})
+				c5 := &ref.Item{Major: 4, Items: []*ref.Item{root.Clone()}}
+				variants = append(variants, ref.Variant{Kind: "envelope-rearranged", Bytes: c5.Encode()})
+			}
 		}
 		if w.WantSample() && it%3 == 0 {
 			w.Sample(map[string]any{"spec": describeSpec(s), "sealed_hex": mon.Hex(capBytes(sealed, 500)), "cid": want.String(), "cbor_nodes": len(root.Nodes()), "reencoding_variants": len(variants)})
@@ -455,7 +467,9 @@ func runC08(w *mon.W) {
 				continue
 			}
 			kept := false
-			if v.Kind == "extra-element" {
+			if v.Kind == "envelope-rearranged" {
+				kept = true // the signature and the signed part are the original items, byte for byte
+			} else if v.Kind == "extra-element" {
 				// same signed content by construction (the first two elements are untouched)
 				if dv, err := ref.DecodeDagCbor(v.Bytes); err == nil && len(dv.L) > 2 && ref.SameData(ref.List(dv.L[0], dv.L[1]), orig) {
 					kept = true
